@@ -30,6 +30,13 @@ def hx(rng, n, style="normal", lo=0.05):
 def mask_bits(rng, h, w, style, margin=0):
     cy, cx = (h - 1) / 2.0, (w - 1) / 2.0
     r_out = min(h, w) / 2.0 - margin - 0.3
+    extra = None
+    if style == "band":
+        extra = (rng.choice([1, -1, -1, 2, -2]), rng.randrange(2, max(3, w // 2 + 2)))
+    elif style == "ellipse":
+        extra = (rng.choice([0.5, 1.0, 2.2, -0.6]), rng.choice([0.35, 0.5, 0.7]))
+    elif style == "blobs":
+        extra = (rng.choice([1.0, 1.5, 2.0]), rng.choice([1.0, 1.5]))
     bits = []
     for y in range(h):
         for x in range(w):
@@ -47,6 +54,21 @@ def mask_bits(rng, h, w, style, margin=0):
                 m = 0 if (inside and rng.random() < 0.6) else 1
             elif style == "sparse":
                 m = 0 if (inside and rng.random() < 0.3) else 1
+            elif style == "band":
+                # a left- or right-leaning band (parallelogram): consecutive rows of unmasked pixels are STAGGERED, not stacked
+                lean = extra[0]
+                start = (margin + lean * (y - margin)) if lean > 0 else (w - margin - extra[1] + lean * (y - margin))
+                m = 0 if (inside and start <= x < start + extra[1]) else 1
+            elif style == "ellipse":
+                # a tilted ellipse
+                c, sn = math.cos(extra[0]), math.sin(extra[0])
+                u, v = (y - cy) * c + (x - cx) * sn, -(y - cy) * sn + (x - cx) * c
+                m = 0 if (inside and (u / max(r_out, 1.0)) ** 2 + (v / max(r_out * extra[1], 0.6)) ** 2 <= 1.0) else 1
+            elif style == "blobs":
+                # two diagonally offset blobs
+                d1 = math.hypot(y - (cy - extra[0]), x - (cx - extra[0]))
+                d2 = math.hypot(y - (cy + extra[0]), x - (cx + extra[0]))
+                m = 0 if (inside and min(d1, d2) <= extra[1]) else 1
             else:
                 raise ValueError(style)
             bits.append(m)
@@ -147,7 +169,7 @@ def gen_purity_world(rw, rv, knobs):
     ps = scales(rw)
     origin = [0.0, 0.0] if rw.random() < 0.7 else [rw.choice([-1.0, 0.5, 2.0]), rw.choice([-0.5, 1.0])]
     margin = rw.choice([1, 1, 2]) if min(h, w) >= 7 else 1
-    style = rw.choice(["interior", "circular", "annular", "random", "random", "sparse"])
+    style = rw.choice(["interior", "circular", "annular", "random", "random", "sparse", "band", "ellipse", "blobs"])
     m0_bits = mask_bits(rw, h, w, style, margin)
     m0 = R.add("m", {"kind": "mask2d", "shape": [h, w], "bits": m0_bits, "pixel_scales": ps, "origin": origin})
     mf = R.add("m", {"kind": "mask2d", "shape": [h, w], "bits": "0" * (h * w), "pixel_scales": ps, "origin": origin})
@@ -261,6 +283,20 @@ def gen_purity_world(rw, rv, knobs):
             di = R.add("di", {"kind": "dataset_interface", "data": ref(data_b), "noise": ref(parts["noise_map"]), "grids": ref(parts["grids"]),
                               "convolver": ref(parts["convolver"]), "w_tilde": ref(parts["w_tilde"])})
             R.add("inv", {"kind": "inversion", "dataset": ref(di), "objs": [ref(o) for o in objs], "settings": ref(settings) if settings else None})
+        if rw.random() < 0.3:
+            # an inversion that is handed a Preloads whose slots were harvested (by reference, as Preloads.set_* does) from a second,
+            # identical and afterwards quiescent inversion - including the internal mapper slots set_curvature_matrix fills
+            src2 = R.add("inv", {"kind": "inversion", "dataset": ref(ds_masked), "objs": [ref(o) for o in objs], "settings": ref(settings) if settings else None})
+            kwp = {}
+            for slot in PUBLIC_SLOTS[1:]:
+                if rw.random() < 0.4:
+                    kwp[slot] = {"$attr": [src2, slot]}
+            if any(o.startswith("mp") for o in objs) and rw.random() < 0.6:
+                kwp["curvature_matrix_mapper_diag"] = {"$attr": [src2, "_curvature_matrix_mapper_diag"]}
+                kwp["data_vector_mapper"] = {"$attr": [src2, "_data_vector_mapper"]}
+                kwp.pop("curvature_matrix", None)
+            plh = R.add("pl", {"kind": "preloads", "kw": kwp})
+            R.add("inv", {"kind": "inversion", "dataset": ref(ds_masked), "objs": [ref(o) for o in objs], "settings": ref(settings) if settings else None, "preloads": ref(plh)})
         mappers = [o for o in objs if o.startswith("mp")]
         if mappers and rw.random() < 0.7:
             mp = rw.choice(mappers)
@@ -359,10 +395,10 @@ def gen_preloads_world(rw, rv, knobs):
     if rw.random() < 0.5:
         kx = ky
     my, mx = ky // 2, kx // 2
-    h = rw.randrange(max(4, 2 * my + 3), max(5, 2 * my + 3) + 4)
-    w = rw.randrange(max(4, 2 * mx + 3), max(5, 2 * mx + 3) + 4)
+    h = rw.randrange(max(4, 2 * my + 3), max(5, 2 * my + 3) + 5)
+    w = rw.randrange(max(4, 2 * mx + 3), max(5, 2 * mx + 3) + 5)
     ps = scales(rw, aniso_ok=False)
-    style = rw.choice(["interior", "random", "random", "circular"])
+    style = rw.choice(["interior", "random", "circular", "band", "band", "band", "ellipse", "blobs"])
     # footprint of the kernel must stay inside the frame: margin per axis
     bits = []
     base = mask_bits(rw, h, w, style, 0)
@@ -420,6 +456,18 @@ def gen_preloads_world(rw, rv, knobs):
     rw.shuffle(obj_specs)
     L = [R.add(p, s) for p, s in obj_specs]
     L2 = [R.add(p, dict(s)) for p, s in obj_specs]  # identical copies
+    # same mappers, DIFFERENT function-list values: two fits that differ only there make Preloads.set_curvature_matrix take its
+    # second branch and fill the internal mapper slots (mapper_operated_mapping_matrix_dict, data_vector_mapper, curvature_matrix_mapper_diag)
+    L3 = None
+    if any(p == "fl" for p, _ in obj_specs) and any(p == "mp" for p, _ in obj_specs):
+        L3 = []
+        for p, s_ in obj_specs:
+            s3 = dict(s_)
+            if p == "fl":
+                s3["matrix"] = hx(rv, len(s_["matrix"]), "positive")
+                if s_.get("override"):
+                    s3["override"] = hx(rv, len(s_["matrix"]), "positive")
+            L3.append(R.add(p, s3))
 
     solver = {}
     if rw.random() < 0.5:
@@ -455,6 +503,6 @@ def gen_preloads_world(rw, rv, knobs):
             parts[name] = R.add("dp", {"kind": "derive", "src": ref(D), "q": {"t": "prop", "name": name}})
         DI = R.add("di", {"kind": "dataset_interface", "data": ref(parts["data"]), "noise": ref(parts["noise_map"]), "grids": ref(parts["grids"]),
                           "convolver": ref(parts["convolver"]), "w_tilde": ref(parts["w_tilde"])})
-    meta = {"D": D, "D2": D2, "DI": DI, "L": L, "L2": L2, "st_w": st_w, "st_m": st_m, "src": src, "P": P, "slots": slots, "preloads_use_w_tilde": pl_use,
+    meta = {"D": D, "D2": D2, "DI": DI, "L": L, "L2": L2, "L3": L3, "st_w": st_w, "st_m": st_m, "src": src, "P": P, "slots": slots, "preloads_use_w_tilde": pl_use,
             "has_mapper": has_mapper, "kernel": [ky, kx], "signed_psf": signed, "n_obj": n_obj}
     return R.nodes, meta
